@@ -357,6 +357,30 @@ def record_completeness(ctx, rule):
             n += 1
             ok = any(key == k2 or (sl is not None and (same_value(strip_refs(rt.slice), strip_refs(sl)) or _same_name(rt.slice, sl)))
                      for k2, sl in recorded)
+            # ... and is listed in step.objects_used, the set the queries look at first: names of the operands held in
+            # step.to / step.frm when the step starts are added by the loop at the top of bake, any other changed object
+            # (a solvent container named among the operands) needs its own `objects_used.add(..)`
+            from_record = any((getattr(x, 'pkey', '') or '').startswith(('step.to[0]', 'step.frm[0]'))
+                              for x in deep_walk(rt.slice))
+            adds = [c_ for c_, s2, b2 in ff.calls if isinstance(c_.func, ast.Attribute) and c_.func.attr == 'add' and
+                    'objects_used' in unparse(c_.func.value) and _inside(s2, node) and c_.args]
+            def raw_text(e):
+                e = getattr(e, 'orig', e)
+                try:
+                    return ast.unparse(e)
+                except Exception:
+                    return None
+            raw_keys = {ast.unparse(t.slice) for t in (getattr(stmt, 'targets', None) or [])
+                        for t in (t.elts if isinstance(t, ast.Tuple) else [t])
+                        if isinstance(t, ast.Subscript) and ast.unparse(t.value) == 'self.results'}
+            listed = from_record or any(same_value(strip_refs(a_.args[0]), strip_refs(rt.slice)) or _same_name(a_.args[0], rt.slice)
+                                        or raw_text(getattr(a_, 'orig', a_).args[0]) in raw_keys
+                                        for a_ in adds)
+            ctx.ob(rule, bake, stmt.lineno, f"`{op}` branch: the object stored back under `{show(rt.slice, 25)}` is listed in step.objects_used",
+                   listed, fact=('an operand held in the step record from the start' if from_record else
+                                 f"{len(adds)} explicit objects_used.add(..) in this branch"),
+                   why='the queries skip a step that does not list the object: its flows are 0 and it has no amount remaining '
+                       'for that timeframe', key=f"changed object not in objects_used in {op}")
             ctx.ob(rule, bake, stmt.lineno, f"`{op}` branch: the object stored back under `{show(rt.slice, 25)}` is recorded in the step",
                    ok, fact=f"post-states appended: {sorted({k2 for k2, sl in recorded})}",
                    why='the step changes a declared object without recording it: its flows are reported as 0 and it has no '
